@@ -122,6 +122,13 @@ def run_one(case, tally):
                     s.recv(65536)
                 except OSError:
                     pass
+        witness = None
+        if kind in ("inflight_short", "inflight_long") and case["trigger"] == "callable":
+            # an idle keep-alive connection whose closure tells the client, causally, that the worker has begun its shutdown
+            witness = h.connect()
+            if witness is not None:
+                witness.sendall(b"GET /witness HTTP/1.1\r\nHost: h\r\n\r\n")
+                recv_until(witness, b"ok", timeout=1.0)
         n_before = sum(1 for e in tr.events if e[2] == "app" and e[3] == "start" and e[4]["scope"].get("type") == "http")
         if case["trigger"] == "max_requests":
             # the worker recycles itself once it has taken on more than max_requests requests
@@ -136,6 +143,26 @@ def run_one(case, tally):
         else:
             h.trigger_shutdown()
         t_trig = time.monotonic()
+        if witness is not None:
+            # while requests are still in flight (grace period running): once the witness has been closed by the server the shutdown
+            # has begun, and from then on no connection may be accepted
+            d, eof = recv_all(witness, timeout=2.0)
+            witness.close()
+            if eof:
+                tr.ev("client", "witness-closed")
+                mark = len(tr.events)
+                c = h.connect(timeout=0.5)
+                if c is not None:
+                    try:
+                        c.sendall(b"GET /during-grace HTTP/1.1\r\nHost: h\r\n\r\n")
+                        recv_all(c, timeout=0.3)
+                    except OSError:
+                        pass
+                    c.close()
+                seen["during_grace"] = [e for e in tr.events[mark:] if (e[2] == "net" and e[3] == "accept") or (e[2] == "srv" and e[3] == "tcpserver")
+                                        or (e[2] == "app" and e[3] == "start" and e[4]["scope"].get("path") == "/during-grace")]
+            else:
+                seen["during_grace"] = None
         if kind == "h2_two_inflight":
             time.sleep(0.2)
             h.apps.trigger("finish")
@@ -145,11 +172,15 @@ def run_one(case, tally):
                 data, eof = recv_all(s, timeout=1.5)
                 rd = FrameReader()
                 evs = rd.feed(data)
-                bodies = {}
+                bodies, ended = {}, set()
                 for e in evs:
                     if e["t"] == "data":
                         bodies[e["sid"]] = bodies.get(e["sid"], b"") + e["data"]
-                seen.setdefault("short", []).append(bodies.get(1) == b"short" and bodies.get(3) == b"short2")
+                    if e["t"] in ("data", "headers") and e.get("end"):
+                        ended.add(e["sid"])
+                # delivered in full = all the bytes *and* the end of the stream
+                seen.setdefault("short", []).append(bodies.get(1) == b"short" and bodies.get(3) == b"short2" and ended >= {1, 3})
+                seen.setdefault("h2_detail", []).append((dict(bodies), sorted(ended)))
         if kind in ("inflight_short", "pipelined_behind_inflight"):
             time.sleep(0.2)
             h.apps.trigger("finish")
@@ -232,6 +263,16 @@ def run_one(case, tally):
             tally.inconclusive["serve-never-returned(%s/%s)" % (be, kind)] += 1
     if isinstance(h.result, tuple) and kind not in ("stuck_forever",):
         tally.notes["serve-raised:%s" % h.result[1].strip().splitlines()[-1][:60]] += 1
+    if "during_grace" in seen:
+        if seen["during_grace"] is None:
+            tally.inconclusive["witness-connection-not-closed"] += 1
+        else:
+            tally.clause("no-accept-during-grace")
+            if seen["during_grace"]:
+                e0 = seen["during_grace"][0]
+                findings.append({"clause": "no-new-work", "sig": "C15.connection-accepted-during-grace/%s" % be, "backend": be,
+                                 "detail": "after the worker had begun its shutdown (an idle keep-alive connection had been closed by it) and while a request "
+                                           "was still in flight, a new connection was still taken on: %s.%s (+%d further events)" % (e0[2], e0[3], len(seen["during_grace"]) - 1)})
     tally.clause("no-new-work")
     if not seen.get("listener_closed"):
         tally.inconclusive["listener-not-observed-closed"] += 1
